@@ -111,20 +111,37 @@ Print Assumptions C06_callback_order_across_threads.
    every run by a translator (harness/srcfacts/skeleton.go) from xsync_map.go and
    xsync_mapof.go: per public method, how often a syntactic path can perform each
    kind of primitive outside a closure run by the map, and how often such a closure
-   can invoke a user function.  proofs/Skel.v ties the model programs to it in both
-   directions; a change of the call structure of a method breaks these statements. *)
-From CacheV.proofs Require SkelDefs Skel.
+   can invoke a user function.  proofs/Skel*.v tie the model programs to it in both
+   directions; a change of the call structure of a method breaks these statements.
+   Each property uses the projection of the budgets it is about (SkelDefs.relax):
+   C02 all primitives, C05 map calls and user functions, C06 callbacks, C14 clock
+   and settings. *)
+From CacheV.proofs Require SkelDefs SkelCb.
 From CacheV.gen Require SrcFacts.
 From Coq Require String.
 
-(* the callback is invoked by the removers only, and never from a closure the map runs under a bucket lock
-   (the translator marks such a closure as untranslatable: TUnknown) *)
-Theorem C06_source_only_removers_fire :
-  (Skel.fires SrcFacts.budgets_map = Skel.remover_names /\ Skel.fires SrcFacts.budgets_mapof = Skel.remover_names)%type.
-Proof. exact Skel.only_removers_fire. Qed.
-Print Assumptions C06_source_only_removers_fire.
+(* callbacks: the model programs load and invoke the evicted callback where the source does *)
+Theorem C06_model_callbacks_within_source :
+  forall (K V : Type) (eqd : forall a b : K, {a = b} + {a <> b}) (zero : V) (o : CacheV.Ops.cop K V),
+    SkelDefs.is_call o ->
+    (SkelDefs.within (SkelDefs.relax SkelDefs.P_cb false SrcFacts.budgets_map) (CacheV.Ops.prog_cache eqd zero) o /\
+     SkelDefs.within (SkelDefs.relax SkelDefs.P_cb false SrcFacts.budgets_mapof) (CacheV.Ops.prog_cacheof eqd zero) o)%type.
+Proof.
+  intros K V eqd zero o H. split; [exact (SkelCb.cache_within_on eqd zero o H)|exact (SkelCb.cacheof_within_on eqd zero o H)].
+Qed.
+Print Assumptions C06_model_callbacks_within_source.
+Theorem C06_source_callbacks_within_model :
+  (SkelDefs.unattained_on SkelDefs.P_cb false SrcFacts.budgets_map (CacheV.Ops.prog_cache Z.eq_dec 0%Z) = [] /\
+   SkelDefs.unattained_on SkelDefs.P_cb false SrcFacts.budgets_mapof (CacheV.Ops.prog_cacheof Z.eq_dec 0%Z) = [])%type.
+Proof. exact SkelCb.attained_on. Qed.
+Print Assumptions C06_source_callbacks_within_model.
 
+(* the callback is invoked by the removers only, and never from a closure the map runs under a bucket lock *)
+Theorem C06_source_only_removers_fire :
+  (SkelCb.fires SrcFacts.budgets_map = SkelCb.remover_names /\ SkelCb.fires SrcFacts.budgets_mapof = SkelCb.remover_names)%type.
+Proof. exact SkelCb.only_removers_fire. Qed.
+Print Assumptions C06_source_only_removers_fire.
 Theorem C06_source_no_callback_under_lock :
-  (Skel.no_unknown SrcFacts.budgets_map = true /\ Skel.no_unknown SrcFacts.budgets_mapof = true)%type.
-Proof. exact Skel.source_fully_translated. Qed.
+  (SkelCb.no_fire_locked SrcFacts.budgets_map = true /\ SkelCb.no_fire_locked SrcFacts.budgets_mapof = true)%type.
+Proof. exact SkelCb.no_callback_under_lock. Qed.
 Print Assumptions C06_source_no_callback_under_lock.
